@@ -6,6 +6,7 @@ Runner for tools/check.py: corpus + generated `codec-*` cases through the implem
 import glob
 import os
 import re
+from tiers import pick
 
 CODEC_FILES = ["crates/maybenot/src/machine.rs", "crates/maybenot/src/parsing.rs",
                "crates/maybenot/src/constants.rs", "crates/maybenot/src/state.rs",
@@ -81,7 +82,7 @@ def run(pid, tier, seed, replay, ctx):
             rc, out = sh([ctx["HBIN"], "codec-replay"], input_bytes=open(c, "rb").read(), timeout=3600)
             texts.append(("corpus:" + os.path.basename(c), out))
         for kind, nq, nt, aq, at in GENS:
-            n, extra = (nq, aq) if tier == "quick" else (nt, at)
+            n, extra = (pick(tier, nq, nt), at if tier == "thorough" else aq)
             # large runs in slices so that no single protocol text gets huge
             step = 20000 if kind in ("hostile", "v1") else (100 if kind == "valid" else n)
             done = 0
